@@ -14,6 +14,16 @@ columns next to a row y, every 1-/2-span feature of x on either strand, every vi
 aln[a:b] / aln.rc(): the feature's columns on the view, the rows of its slice, and its
 projection onto y (positions on y's held sequence, string).
 
+Feature algebra and masking (Algebra record of Annotation.tla, algebra fields of
+AnnotationAln.tla): as_one_span, shadow, without_lost_spans, get_slice(complete=True),
+union and with_masked_annotations(biotypes, shadow) on every view, on the same position
+sets; get_slice(allow_gaps=True) and Alignment.with_masked_annotations on alignments.
+
+Order of events (AnnotationHistory.tla): objects sharing one annotation db, every
+interleaving of slice / rc / copy / degap / to_rna / add_feature, each call on any
+object made so far; after every history every object must see exactly the records of
+its db, mapped into its own coordinates (harness/hist_C04.py).
+
 spec -> code, on old-style and new-style Sequence (features made with seq.add_feature -
 on the root, on a root with an offset, on a slice - or loaded as absolute coordinates
 into a BasicAnnotationDb) and on old-style Alignment:
@@ -42,7 +52,9 @@ import time
 import zlib
 from collections import defaultdict, deque
 
+import algebra_C04 as ALG
 import aln_C04 as A
+import hist_C04 as H
 import impl_C04 as I
 from common import REPLAYS, Run, main_wrapper
 from tlc import Scratch, read_emitted, run_tlc
@@ -393,6 +405,8 @@ def check_variant(rep, kind, mode, ukey, u):
             def at_state(r, o=o, state=state, look=look, fk=fk):
                 raised = observe(r, ctx, o, state, look["obs"], chain_of(fk))
                 window_queries(r, ctx, o, state, look, chain_of(fk), raised)
+                if not raised.get(True) and sampled(ctx, fk, "algebra", "", G["algebra_rate"]):
+                    ALG.algebra_checks(r, ctx, o, state, look, chain_of(fk), off_class, view_dir, feat_class)
 
             judged(taint[fk], at_state)
         # group the successors the spec allows per call
@@ -557,7 +571,7 @@ class TlcJob:
         self.name, self.level = name, level
         self.emit = scratch / f"emit-{name}.ndjson"
         self.res = self.err = None
-        spec = "Annotation" if level == "seq" else "AnnotationAln"
+        spec = {"seq": "Annotation", "aln": "AnnotationAln", "hist": "AnnotationHistory"}[level]
 
         def work():
             try:
@@ -575,7 +589,7 @@ class TlcJob:
         return self.res
 
 
-def stage(run, scratch, job, totals, tm, edge_rate, window_rate):
+def stage(run, scratch, job, totals, tm, edge_rate, window_rate, algebra_rate=0.0):
     name, level = job.name, job.level
     res = job.result()
     run.add_tlc(res)
@@ -586,7 +600,7 @@ def stage(run, scratch, job, totals, tm, edge_rate, window_rate):
     os.unlink(job.emit)
     if not files:
         raise RuntimeError("TLC emitted nothing")
-    G.update(files=files, seed=run.seed, tier=run.tier, edge_rate=edge_rate, window_rate=window_rate, level=level)
+    G.update(files=files, seed=run.seed, tier=run.tier, edge_rate=edge_rate, window_rate=window_rate, level=level, algebra_rate=algebra_rate)
     tm[f"{name}.emitted"] = nrec
     tm[f"{name}.universes"] = len(files)
     tm[f"{name}.split_s"] = round(time.time() - t0, 1)
@@ -602,6 +616,57 @@ def stage(run, scratch, job, totals, tm, edge_rate, window_rate):
     G.pop("files", None)
 
 
+def hist_chunk(chunk):
+    """replay the histories whose Look record starts in this byte range of the emitted file"""
+    path, lo, hi = chunk
+    rep = Report()
+    rate, seed = G["hist_rate"], G["seed"]
+    root = None
+    with open(path, "rb") as fh:
+        if lo:
+            fh.seek(lo - 1)
+            fh.readline()
+        while fh.tell() < hi:
+            line = fh.readline()
+            if not line:
+                break
+            rep.stats["spec_states"] += 1
+            if rate < 1 and (zlib.crc32(line) ^ seed) % 9973 >= rate * 9973:
+                rep.stats["histories_not_sampled"] += 1
+                continue
+            r = json.loads(line)
+            r = json.loads(r) if isinstance(r, str) else r
+            if root is None:
+                root = H.root_string(seed, r["P"])
+            for kind in I.KINDS:
+                H.check_history(rep, kind, r, root, seed)
+            if not rep.samples and len(r["hist"]) >= 3 and sum(c[0] == "Add" for c in r["hist"]) >= 1 and not rep.fail:
+                rep.samples.append({"level": "history", "root": root, "hist": r["hist"], "expected": r["obs"]})
+    return rep.dump()
+
+
+def stage_hist(run, scratch, job, totals, tm, rate):
+    name = job.name
+    res = job.result()
+    run.add_tlc(res)
+    tm[f"{name}.tlc_s"] = round(res.wall, 1)
+    size = os.path.getsize(job.emit)
+    if not size:
+        raise RuntimeError("TLC emitted nothing")
+    n = NPROC * 6
+    step = max(1, size // n)
+    bounds = [min(size, i * step) for i in range(n)] + [size]
+    parts = [(str(job.emit), bounds[i], bounds[i + 1]) for i in range(n) if bounds[i] < bounds[i + 1]]
+    G.update(seed=run.seed, tier=run.tier, hist_rate=rate)
+    t0 = time.time()
+    warmup()
+    ctx = mp.get_context("fork")
+    with ctx.Pool(NPROC) as pool:
+        merge(run, pool.imap_unordered(hist_chunk, parts), totals)
+    tm[f"{name}.replay_s"] = round(time.time() - t0, 1)
+    os.unlink(job.emit)
+
+
 def warmup():
     for kind in I.KINDS:
         s, _ = I.make_universe(kind, "add", "ACGTRY", 0, [{"bio": "gene", "name": "a", "strand": "-", "spans": [[1, 3]]}])
@@ -610,9 +675,14 @@ def warmup():
 
 
 def replay_file(path):
-    d = json.load(open(path))
+    replay_file_detail(json.load(open(path)))
+
+
+def replay_file_detail(d):
     if d.get("level") == "alignment":
         return A.replay(d)
+    if d.get("level") == "history":
+        return H.replay(d)
     kind, mode = d["kind"], d.get("mode", "add")
     seq, _ = I.make_universe(kind, mode, d["root"], d["offset"], d["features"], d.get("via"))
     print(f"{kind} {mode} root {d['root']!r} offset {d['offset']} features {d['features']}")
@@ -637,6 +707,12 @@ def replay_file(path):
             print(f"  recorded {k}: {d[k]!r}"[:600])
 
 
+def replay_case(detail):
+    """hook of ./check C04 --replay: redo the recorded calls on the real classes and print what they answer now"""
+    replay_file_detail(detail)
+    return {"reproduced": True, "note": "compare the answers printed above with the recorded expectation"}
+
+
 def check(run: Run):
     if getattr(run, "replay", None):
         replay_file(run.replay)
@@ -651,6 +727,8 @@ def check(run: Run):
         plan = [  # (stage, cfg, level, edge rate, window rate)
             ("views", "MC_Annotation_quick.cfg", "seq", float(env("VERIF_C04_EDGES", "0.06")), float(env("VERIF_C04_WINDOWS", "0.06"))),
             ("aln", "MC_Annotation_aln_quick.cfg", "aln", float(env("VERIF_C04_EDGES", "0.06")), 0),
+            # every interleaving of 3 calls (slice / rc / copy / degap / to_rna / add_feature on any object made so far)
+            ("hist", "MC_Annotation_hist_quick.cfg", "hist", float(env("VERIF_C04_HIST", "0.25")), 0),
         ]
     else:
         plan = [
@@ -660,23 +738,32 @@ def check(run: Run):
             ("aln", "MC_Annotation_aln_thorough.cfg", "aln", float(env("VERIF_C04_EDGES", "0.1")), 0),
             # P = 6, views of copies / feature slices explored as well: every state, seeded sample of the other histories and of the windows
             ("views", "MC_Annotation_thorough.cfg", "seq", float(env("VERIF_C04_EDGES", "0.07")), float(env("VERIF_C04_WINDOWS", "0.1"))),
+            # every interleaving of 4 calls: a seeded sample of the histories (all of depth <= 3 are in the quick configuration)
+            ("hist", "MC_Annotation_hist_thorough.cfg", "hist", float(env("VERIF_C04_HIST", "0.1")), 0),
         ]
+    # share of the states on which the feature algebra / masking is exercised as well
+    alg_rates = {"views": float(env("VERIF_C04_ALGEBRA", "0.12" if tier == "quick" else "0.1")), "small": 1.0,
+                 "aln": float(env("VERIF_C04_ALGEBRA", "0.25" if tier == "quick" else "0.3"))}
     only = env("VERIF_C04_STAGES")  # debugging aid
     if only:
         plan = [p for p in plan if p[0] in only.split(",")]
     with Scratch("C04") as scratch:
         # all model-checking runs start now (they share the TLC worker budget) and are replayed in order as they finish
-        share = {"small": 2, "views": 4, "aln": 4} if len(plan) == 3 else {}
+        share = ({"small": 2, "views": 3, "aln": 2, "hist": 1} if tier == "thorough" else {"views": 4, "aln": 2, "hist": 2}) if len(plan) >= 3 else {}
         jobs = [TlcJob(scratch, name, cfg, level, share.get(name, max(2, NPROC // len(plan)))) for name, cfg, level, _, _ in plan]
         try:
-            for job, (_, _, _, er, wr) in zip(jobs, plan):
-                stage(run, scratch, job, totals, tm, er, wr)
+            for job, (_, _, level, er, wr) in zip(jobs, plan):
+                if level == "hist":
+                    stage_hist(run, scratch, job, totals, tm, er)
+                else:
+                    stage(run, scratch, job, totals, tm, er, wr, alg_rates.get(job.name, 0.0))
         finally:
             for job in jobs:
                 job.thread.join()
-    cases = (totals["queries"] + totals["window_queries"] + totals["slices"] + totals["created"]
-             + totals["aln_queries"] + totals["aln_slices"] + totals["aln_projections"] + totals["aln_created"])
-    run.cov["traces_validated_against_impl"] = totals["states"] + totals["transitions"]
+    cases = (totals["queries"] + totals["window_queries"] + totals["slices"] + totals["created"] + totals["algebra"]
+             + totals["aln_queries"] + totals["aln_slices"] + totals["aln_projections"] + totals["aln_created"]
+             + totals["aln_region_queries"] + totals["aln_algebra"] + 2 * totals["history_objects"])
+    run.cov["traces_validated_against_impl"] = totals["states"] + totals["transitions"] + totals["histories"]
     run.cov["evaluations"] = cases
     run.cov["distinct_nontrivial"] = totals["distinct_nontrivial"]
     run.cov["exhaustive"] = tier == "thorough"
@@ -692,7 +779,13 @@ def check(run: Run):
         "as an alignment-level feature. "
         "quick: P=5 / U=3,L=4, seeded 6% sample of the non-chain transitions and windows; thorough: P=5 with every transition and "
         "window, P=6 with MaxCopy=1 (7% of non-chain transitions, 10% of windows), U=4,L=6 (10% of non-chain transitions). "
-        "distinct_nontrivial = distinct (universe, view, feature) whose feature is only partly retained by the view and whose "
+        "Feature algebra (Algebra record of every state): as_one_span, shadow, without_lost_spans, get_slice(complete=True), union, "
+        "with_masked_annotations (3 biotype sets x shadow) on the same states (quick 12% of them, thorough all of P=5 and 10% of P=6); "
+        "alignments: as_one_span / get_slice(allow_gaps=True) and Alignment.with_masked_annotations. "
+        "Order of events (AnnotationHistory.tla): every history of MaxDepth calls, each on any object made so far (slice head/tail/mid, "
+        "rc, copy, degap, to_rna, add_feature of the first position / of the rest on either strand, at most 2 adds), P=5; after each "
+        "history every object is asked what it sees (quick: depth 3, 25% of the histories; thorough: depth 4, 10%). "
+        "distinct_nontrivial = distinct (universe or history, view, feature) whose feature is only partly retained by the view and whose "
         "slice (string / alignment rows) was compared and agreed."
     )
     run.note("replay", dict(totals))
@@ -700,7 +793,10 @@ def check(run: Run):
     run.assumptions += [
         "expected slice strings are rendered from the spec's root positions with the complement table defined in Annotation.tla / AnnotationAln.tla; roots use 12 IUPAC symbols that differ from their complement, each at most once",
         "views are contiguous (stride 1) slices with 0 <= start < stop <= len, rc(), copy(), seq[feature], degap() of gap-free sequences; seq[::-1] is only required to report no features; strided views, negative/None slice arguments (C01) and empty views are not driven",
-        "two features per universe (plus-strand a, its mirror image b on the minus strand), 1-2 spans each; parent/child records (get_children/get_parent), union/shadow/as_one_span and drawables are not driven",
+        "two features per universe (plus-strand a, its mirror image b on the minus strand), 1-2 spans each; parent/child records (get_children/get_parent: name matching is by SQL LIKE and has no stated coordinate semantics) and drawables are not driven",
+        "derived features (as_one_span, shadow, without_lost_spans) are required to keep the strand of the feature they derive from, as implemented (the docstrings are silent); for the union of a plus- and a minus-strand feature only the covered positions are stated, not its strand or slice",
+        "with_masked_annotations: only the masked string is compared (mask_char '?'); the annotation db the result carries is not queried",
+        "histories: add_feature(spans) on a view counts the spans from the view's plus-strand start along the plus strand of the parent (that is what the returned Feature shows on forward and reverse complemented views; the docstring only says 'coordinates for this sequence'); roots avoid A/T/U so that to_rna() does not change the string; single-span records only",
         "a feature whose extent overlaps a window only with the gap between its spans may or may not be returned (the statement leaves extent vs. residue overlap open); a slice seq[feature] may keep or drop the annotation db when it is one contiguous run, and must drop it otherwise",
         "exceptions raised while making a view (e.g. new-style copy() of a sequence with an offset, property C01) are counted as unsupported:*, not as C04 violations; so are slices / projections of features of which the view retains nothing",
         "alignments: old-style Alignment with two rows, one feature on a row in sequence coordinates (queried with on_alignment=False) and the same spans as an alignment-level feature (on_alignment=True), no annotation offsets on rows; Alignment.degap(), ArrayAlignment and new-style collections are not driven",
